@@ -250,7 +250,7 @@ impl<'a> YamlEmitter<'a> {
                 } else if v.is_infinite() {
                     self.writer.write_str(".inf")?;
                 } else {
-                    write!(self.writer, "{v}")?;
+                    self.emit_finite_float(v.into_inner())?;
                 }
                 Ok(())
             }
@@ -275,6 +275,19 @@ impl<'a> YamlEmitter<'a> {
             // XXX(chenyh) Alias
             Yaml::Alias(_) => Ok(()),
         }
+    }
+
+    /// Emit a finite float so that it reads back as a float.
+    ///
+    /// `Display` prints integral values without a fractional part (`1`, `-0`, `10000000000`),
+    /// which a YAML loader resolves as integers.
+    fn emit_finite_float(&mut self, v: f64) -> EmitResult {
+        let text = v.to_string();
+        self.writer.write_str(&text)?;
+        if !text.contains(|c: char| matches!(c, '.' | 'e' | 'E')) {
+            self.writer.write_str(".0")?;
+        }
+        Ok(())
     }
 
     fn emit_literal_block(&mut self, v: &str) -> EmitResult {
